@@ -93,6 +93,7 @@ func TestC19NodeURI(t *testing.T) {
 		oh.class = "absent"
 		oport := ""
 		scheme := "enode"
+		rootless := false
 		if rapid.IntRange(0, 5).Draw(rt, "hasOverride") > 0 {
 			userClass = rapid.SampledFrom([]string{"own", "own", "own", "other", "empty", "none", "own:password"}).Draw(rt, "user")
 			oh = genC19Host().Draw(rt, "ohost")
@@ -113,6 +114,15 @@ func TestC19NodeURI(t *testing.T) {
 				user = self.nodeID + ":hunter2@"
 			}
 			override = scheme + "://" + user + oh.text + oport + tail
+			if rapid.IntRange(0, 5).Draw(rt, "rootless") == 0 {
+				// a scheme but no "//": a rootless URI ("enode:<id>@host:port", "mailto:x"). Outside the documented
+				// form; what must hold for it is stated where the result is judged (rootless below)
+				override = scheme + ":" + user + oh.text + oport + tail
+				if rapid.IntRange(0, 3).Draw(rt, "rootlessOdd") == 0 {
+					override = rapid.SampledFrom([]string{"mailto:x", "enode:anything", "enode:", "urn:enode:" + other.nodeID + "@203.0.113.9:30303"}).Draw(rt, "rootlessText")
+				}
+				rootless = true
+			}
 			if userClass == "none" && oh.class == "empty" {
 				// "enode://:30303" style: no authority at all is still a possible input
 			}
@@ -202,8 +212,8 @@ func TestC19NodeURI(t *testing.T) {
 			}
 			wellFormed := (userClass == "own" || userClass == "empty" || userClass == "absent" || userClass == "own:password") &&
 				hostKnown && expHost != "" && (scheme == "enode" || override == "")
-			if userClass == "none" {
-				wellFormed = false // "enode://host:port": the host would be read as the id by agents; outside the documented form
+			if userClass == "none" || rootless {
+				wellFormed = false // "enode://host:port": the host would be read as the id by agents; rootless forms: outside the documented form
 			}
 			if wellFormed {
 				rt.Fatalf("well-formed registration refused: source=%q override=%q: %v", srcAddr, override, err)
@@ -213,11 +223,30 @@ func TestC19NodeURI(t *testing.T) {
 				rt.Fatalf("accepted but not stored: %v", gerr)
 			}
 			cs.Stored = stored.URI
-			checkAdvertised(rt, "stored", stored.URI, self.nodeID, expHost, expPort, hostKnown)
+			if rootless {
+				// Outside the documented "enode://" form: Go's URL parser sees no host in it and the pool falls back to
+				// the connection's address. Either reading is accepted - the address the text names, or the default -
+				// but whatever is stored carries the authenticated id and a dialable host:port, also towards clients.
+				if u, perr := ethnode.ParseNodeURI(stored.URI); perr != nil || u.ID() != self.nodeID {
+					rt.Fatalf("rootless override %q (source %q): stored URI %q does not carry the authenticated id", override, srcAddr, stored.URI)
+				} else if h, pt, serr := net.SplitHostPort(u.Host); serr != nil || !((h == src.plain && pt == "30303") || (oh.plain != "" && h == oh.plain && pt == expPort)) {
+					rt.Fatalf("rootless override %q (source %q): stored URI %q names neither the connection's address with port 30303 nor the address in the override", override, srcAddr, stored.URI)
+				}
+				expHost, hostKnown = "", false
+				if u, _ := ethnode.ParseNodeURI(stored.URI); u != nil {
+					if h, pt, serr := net.SplitHostPort(u.Host); serr == nil {
+						expHost, expPort, hostKnown = h, pt, true // a client is handed the same address
+					}
+				}
+			} else {
+				checkAdvertised(rt, "stored", stored.URI, self.nodeID, expHost, expPort, hostKnown)
+			}
 			if hostKnown && expHost == "" {
 				rt.Fatalf("registration with no determinable host was accepted: source=%q override=%q stored=%q", srcAddr, override, stored.URI)
 			}
-			if userClass == "other" {
+			if userClass == "other" && !rootless {
+				// (a rootless text is not read as an override at all: the registration goes through under the
+				// authenticated id and the connection's address, checked above)
 				rt.Fatalf("override naming another id was accepted: %q", override)
 			}
 			// what a client is handed
@@ -246,6 +275,9 @@ func TestC19NodeURI(t *testing.T) {
 
 		nontrivial := src.class == "ipv6" || src.class == "ipv6zone" || src.class == "empty" || oh.class == "ipv6" || oh.class == "ipv6zone" ||
 			oh.class == "empty" || oh.class == "unspec6" || userClass == "other" || userClass == "empty" || userClass == "none" || (override != "" && oport == "")
+		if rootless {
+			userClass += "/rootless"
+		}
 		sig := fmt.Sprintf("%s|%s|%s|%s|%s|%v|%v", src.class, oh.class, userClass, scheme, endpoint, oport != "", accepted)
 		rec.Case(sig, nontrivial, []string{"src:" + src.class, "ohost:" + oh.class, "user:" + userClass, fmt.Sprintf("accepted:%v", accepted)}, func() interface{} { return cs })
 	})
